@@ -21,10 +21,17 @@ NOT_YET = {}
 
 def main():
     props = [json.loads(l) for l in open(os.path.join(VERIF, 'properties.jsonl'))]
-    extra = {}
-    p = os.path.join(VERIF, 'harness', 'manifest_table.json')
-    if os.path.exists(p):
-        extra = json.load(open(p))
+    extra = {'claimed': {}, 'not_applicable': {}}
+    d = os.path.join(VERIF, 'harness', 'manifest.d')
+    if os.path.isdir(d):
+        for fn in sorted(os.listdir(d)):
+            if fn.endswith('.json'):
+                e = json.load(open(os.path.join(d, fn)))
+                pid = fn[:-5]
+                if 'not_applicable' in e:
+                    extra['not_applicable'][pid] = e['not_applicable']
+                else:
+                    extra['claimed'][pid] = [e['technique'], e['level_text'], e['level_note'], e['design_ref']]
     checks, na = [], []
     for pr in props:
         pid = pr['id']
